@@ -70,7 +70,18 @@ def _plain(name):
     return lambda: build.grid(meshes.get(name))
 
 
+def _mpas(name):
+    def f():
+        import uxarray as ux
+        from vf.alpha import dialects as D
+
+        return ux.open_grid(D.mpas(meshes.get(name), optional="all")[0])
+
+    return f
+
+
 SETUPS = [
+    hexplore.Setup("mpas", {"A": _mpas("pyr5")}),
     hexplore.Setup("mixedpatch", {"A": _plain("mixedpatch")}),
     hexplore.Setup("cube", {"A": _plain("cube")}),
     hexplore.Setup("amstrip", {"A": _plain("amstrip")}),
@@ -126,7 +137,9 @@ def _changing_alphabet(ctx, sname, tags):
 def run(ctx):
     EXP.compute_ref()
     ctx.extra["ref_digest"] = {s: EXP.ref_digest(s) for s in EXP.setups}
-    singles = ["mixedpatch", "cube", "amstrip", "ships"]
+    singles = ["mixedpatch", "cube", "amstrip", "ships"] if ctx.tier == "quick" else ["mixedpatch", "cube", "amstrip", "ships", "mpas"]
+    if ctx.tier == "quick":
+        _bfs(ctx, "mpas", 1, [()], label="fresh (MPAS source)")
     deep = 2 if ctx.tier == "quick" else 3
     for s in singles:
         _bfs(ctx, s, deep, [()], label="fresh")
